@@ -27,3 +27,5 @@ open Pcore.Desc
 #print axioms C19_signatures_fault_paramIndex
 #print axioms C19_sizeMismatch_real_partial
 #print axioms C19_countMismatch_real_partial
+#print axioms C19_typeMismatch_real_partial
+#print axioms C19_patternMismatch_real_partial
